@@ -54,7 +54,17 @@ func cpuSeconds() float64 {
 var caseStartCPU atomic.Value // float64
 var caseSerial atomic.Int64
 
-func touchWatchdog() { caseStartCPU.Store(cpuSeconds()) }
+var caseStartWall atomic.Int64 // unix nanoseconds
+
+func touchWatchdog() {
+	caseStartCPU.Store(cpuSeconds())
+	caseStartWall.Store(time.Now().UnixNano())
+}
+
+// BlockedWallSeconds: an execution that has used (almost) no CPU for this long is blocked in a system call - e.g. reading
+// a named pipe nobody writes to. The CPU cap cannot see that; this is the only place where wall-clock time decides, and it
+// does so only together with "no CPU was used", which load on the machine cannot cause.
+const BlockedWallSeconds = 180
 
 func startWatchdog() {
 	caseStartCPU.Store(cpuSeconds())
@@ -69,6 +79,11 @@ func startWatchdog() {
 				continue
 			}
 			start, _ := caseStartCPU.Load().(float64)
+			if w := caseStartWall.Load(); w != 0 && time.Since(time.Unix(0, w)) > BlockedWallSeconds*time.Second && now-start < 2 {
+				fmt.Fprintf(os.Stderr, "\nVERIF-HANG: case blocked for more than %d s without using the CPU\n", BlockedWallSeconds)
+				_ = pprof.Lookup("goroutine").WriteTo(os.Stderr, 2)
+				os.Exit(ExitHang)
+			}
 			if now-start > CaseCPUCapSeconds {
 				fmt.Fprintf(os.Stderr, "\nVERIF-HANG: case used more than %d CPU seconds\n", CaseCPUCapSeconds)
 				_ = pprof.Lookup("goroutine").WriteTo(os.Stderr, 2)
@@ -139,7 +154,7 @@ func RunWorker(a WorkerArgs) int {
 		b, _ := json.Marshal(c)
 		_, _ = pf.WriteAt(append(b, '\n'), 0)
 		_ = pf.Truncate(int64(len(b) + 1))
-		caseStartCPU.Store(cpuSeconds())
+		touchWatchdog()
 		caseSerial.Add(1)
 		t.cur = c
 		res.Counters["cases"]++
